@@ -3,14 +3,39 @@
 use crate::util::Rec;
 use crate::Env;
 
+pub mod c02;
+pub mod c03;
+pub mod c12;
+pub mod c04;
+pub mod c05;
+pub mod c06;
+pub mod c07;
+pub mod c08;
+pub mod c09;
+pub mod pipes;
+pub mod c10;
+pub mod c11;
 pub mod c13;
 pub mod c14;
+pub mod c17;
 pub mod c18;
 
 pub fn run(prop: &str, env: &Env) -> Option<Rec> {
     Some(match prop {
+        "C02" => c02::run(env),
+        "C03" => c03::run(env),
+        "C04" => c04::run(env),
+        "C05" => c05::run(env),
+        "C06" => c06::run(env),
+        "C07" => c07::run(env),
+        "C08" => c08::run(env),
+        "C09" => c09::run(env),
+        "C10" => c10::run(env),
+        "C11" => c11::run(env),
+        "C12" => c12::run(env),
         "C13" => c13::run(env),
         "C14" => c14::run(env),
+        "C17" => c17::run(env),
         "C18" => c18::run(env),
         _ => return None,
     })
@@ -18,8 +43,20 @@ pub fn run(prop: &str, env: &Env) -> Option<Rec> {
 
 pub fn replay(prop: &str, env: &Env, op: &str, case: &str) -> Option<Rec> {
     Some(match prop {
+        "C02" => c02::replay(env, op, case),
+        "C03" => c03::replay(env, op, case),
+        "C04" => c04::replay(env, op, case),
+        "C05" => c05::replay(env, op, case),
+        "C06" => c06::replay(env, op, case),
+        "C07" => c07::replay(env, op, case),
+        "C08" => c08::replay(env, op, case),
+        "C09" => c09::replay(env, op, case),
+        "C10" => c10::replay(env, op, case),
+        "C11" => c11::replay(env, op, case),
+        "C12" => c12::replay(env, op, case),
         "C13" => c13::replay(env, op, case),
         "C14" => c14::replay(env, op, case),
+        "C17" => c17::replay(env, op, case),
         "C18" => c18::replay(env, op, case),
         _ => return None,
     })
@@ -35,4 +72,27 @@ pub fn kv_get<'a>(case: &'a str, key: &str) -> Option<&'a str> {
         }
     }
     None
+}
+
+/// value of the LAST field `key=...` taking everything up to the end of the
+/// case string (used for literal labels, which may contain ';' and '=')
+pub fn kv_get_last<'a>(case: &'a str, key: &str) -> Option<&'a str> {
+    let pat = format!("{}=", key);
+    if let Some(rest) = case.strip_prefix(pat.as_str()) {
+        return Some(rest);
+    }
+    let pat2 = format!(";{}=", key);
+    case.find(pat2.as_str()).map(|i| &case[i + pat2.len()..])
+}
+
+pub fn err_kind(e: &crate::api::E) -> &'static str {
+    use crate::api::E;
+    match e {
+        E::Invalid => "invalid",
+        E::Bad(..) => "bad-codepoint",
+        E::Undefined => "undefined-context",
+        E::CtxNotApplicable(..) => "context-rule-not-applicable",
+        E::MissingRule(..) => "missing-context-rule",
+        E::ProfileRuleNotApplicable => "profile-rule-not-applicable",
+    }
 }
